@@ -206,4 +206,23 @@ theorem feeder_query_is_the_authorised_account (s : State) (f : Acct) (v : Strin
   simp only [hv, hval, hb, Bool.true_and, decodeVal_valName, Option.map_some, Bool.or_eq_true, beq_iff_eq, Option.some.injEq]
 
 
+/-- **a delegation stored under any spelling other than the canonical one authorises nobody**: the admission check answers the same
+whatever is stored under such a key (this is what a consent sent under the upper-case spelling of the validator's address leaves behind) -/
+theorem noncanonical_delegation_is_inert (s : State) (k : String) (x : Acct) (hk : ∀ i, valName i ≠ k) (f : Acct) (v : String) :
+    validateFeeder { s with os := { s.os with feeders := alSet s.os.feeders k x } } f v = validateFeeder s f v := by
+  unfold validateFeeder
+  cases hd : decodeVal v with
+  | none => rfl
+  | some i =>
+    simp only
+    rw [alGet_alSet_ne _ _ _ _ (hk i)]
+
+example : ∀ i, valName i ≠ "V3" := by
+  intro i h
+  have := congrArg decodeVal h
+  rw [decodeVal_valName] at this
+  have h2 : ("v" ++ toString i).toList = "V3".toList := congrArg String.toList h
+  rw [String.toList_append] at h2
+  exact absurd (List.head_eq_of_cons_eq h2) (by decide)
+
 end Settlus.C03
